@@ -40,6 +40,14 @@ MDMFV_NEW = (
     "        ret = b'URI:MDMF-Verifier:%s:%s:%d' % (si_b2a(self.storage_index),\n"
     "                                               base32.b2a(self.fingerprint), self.version)\n")
 
+PREFIX_BLOCK = (
+    "    if s.startswith(ALLEGED_IMMUTABLE_PREFIX):\n        can_be_mutable = can_be_writeable = False\n"
+    "        s = s[len(ALLEGED_IMMUTABLE_PREFIX):]\n"
+    "    elif s.startswith(ALLEGED_READONLY_PREFIX):\n        can_be_writeable = False\n"
+    "        s = s[len(ALLEGED_READONLY_PREFIX):]\n")
+B32 = "src/allmydata/util/base32.py"
+B32_HELPER = "    d = {}\n    return b''.join(_get_trailing_chars_without_lsbs(N, d=d))\n"
+
 MUTANTS = [
     # ---- C15.1 start anchor / whole parameter
     M("lit-no-caret", U, "STRING_RE=re.compile(b'^URI:LIT:'+", "STRING_RE=re.compile(b'URI:LIT:'+", "C15.1"),
@@ -119,6 +127,9 @@ MUTANTS = [
     M("benign-dir-to-string-len", U,
       "        mo = re.match(self.INNER_URI_CLASS.BASE_STRING, fnuri)\n        assert mo, fnuri\n        bits = fnuri[mo.end():]",
       "        assert fnuri.startswith(self.INNER_URI_CLASS.BASE_STRING), fnuri\n        bits = fnuri[len(self.INNER_URI_CLASS.BASE_STRING):]", None),
+    M("benign-dir-init-removeprefix", U, "        bits = uri[mo.end():]\n", "        bits = uri.removeprefix(cls.BASE_STRING)\n", None),
+    M("dir-init-removeprefix-inner-base", U, "        bits = uri[mo.end():]\n",
+      "        bits = uri.removeprefix(cls.INNER_URI_CLASS.BASE_STRING)\n", "C15.7"),
     # ---- C15.8 failed match
     M("lit-guard-deleted", U, LIT_INIT,
       "        mo = cls.STRING_RE.search(uri)\n        return cls(base32.a2b(mo.group(1)))", "C15.8"),
@@ -222,6 +233,74 @@ MUTANTS = [
       "        can_be_mutable = can_be_writeable = False\n        s = s[len(ALLEGED_IMMUTABLE_PREFIX):]\n",
       "        can_be_mutable = can_be_writeable = False\n        s = u[4:]\n", None),
     M("benign-working-copy-full-slice", U, "    s = u\n    can_be_mutable = can_be_writeable", "    s = u[0:]\n    can_be_mutable = can_be_writeable", None),
+    # ---- C15.11 again: the strip family the seeded change C15-F used (bytes.removeprefix), decided on the known leading bytes
+    M("prefix-removeprefix-chained", U, PREFIX_BLOCK,
+      "    if s.startswith(ALLEGED_IMMUTABLE_PREFIX):\n        can_be_mutable = can_be_writeable = False\n"
+      "    elif s.startswith(ALLEGED_READONLY_PREFIX):\n        can_be_writeable = False\n"
+      "    s = s.removeprefix(ALLEGED_IMMUTABLE_PREFIX).removeprefix(ALLEGED_READONLY_PREFIX)\n", "C15.11",
+      note="seeded change C15-F"),
+    M("prefix-removeprefix-loop", U, PREFIX_BLOCK,
+      "    if s.startswith(ALLEGED_IMMUTABLE_PREFIX):\n        can_be_mutable = can_be_writeable = False\n"
+      "    elif s.startswith(ALLEGED_READONLY_PREFIX):\n        can_be_writeable = False\n"
+      "    for alleged in (ALLEGED_IMMUTABLE_PREFIX, ALLEGED_READONLY_PREFIX):\n        s = s.removeprefix(alleged)\n", "C15.11"),
+    M("prefix-imm-slice-then-removeprefix", U,
+      "        can_be_mutable = can_be_writeable = False\n        s = s[len(ALLEGED_IMMUTABLE_PREFIX):]\n",
+      "        can_be_mutable = can_be_writeable = False\n        s = s[len(ALLEGED_IMMUTABLE_PREFIX):].removeprefix(ALLEGED_READONLY_PREFIX)\n",
+      "C15.11"),
+    M("benign-prefix-removeprefix-per-branch", U, PREFIX_BLOCK,
+      "    if s.startswith(ALLEGED_IMMUTABLE_PREFIX):\n        can_be_mutable = can_be_writeable = False\n"
+      "        s = s.removeprefix(ALLEGED_IMMUTABLE_PREFIX)\n"
+      "    elif s.startswith(ALLEGED_READONLY_PREFIX):\n        can_be_writeable = False\n"
+      "        s = s.removeprefix(ALLEGED_READONLY_PREFIX)\n", None),
+    M("benign-prefix-table-loop-break", U, PREFIX_BLOCK,
+      "    if u.startswith(ALLEGED_IMMUTABLE_PREFIX):\n        can_be_mutable = can_be_writeable = False\n"
+      "    elif u.startswith(ALLEGED_READONLY_PREFIX):\n        can_be_writeable = False\n"
+      "    for alleged in (ALLEGED_IMMUTABLE_PREFIX, ALLEGED_READONLY_PREFIX):\n"
+      "        if s.startswith(alleged):\n            s = s[len(alleged):]\n            break\n", None),
+    M("benign-prefix-removeprefix-conditional", U, PREFIX_BLOCK,
+      "    if s.startswith(ALLEGED_IMMUTABLE_PREFIX):\n        can_be_mutable = can_be_writeable = False\n"
+      "    elif s.startswith(ALLEGED_READONLY_PREFIX):\n        can_be_writeable = False\n"
+      "    s = (s.removeprefix(ALLEGED_IMMUTABLE_PREFIX) if s.startswith(ALLEGED_IMMUTABLE_PREFIX)\n"
+      "         else s.removeprefix(ALLEGED_READONLY_PREFIX))\n", None),
+    # ---- C15.12 again: removesuffix trims the end like rstrip does
+    M("working-copy-removesuffix", U, "    s = u\n    can_be_mutable = can_be_writeable",
+      "    s = u.removesuffix(b'/')\n    can_be_mutable = can_be_writeable", "C15.12"),
+    # ---- C15.13 the final-character classes of util.base32 (seeded change C15-E and edits with the same effect)
+    M("b32-mask-precedence-slip", B32, B32_HELPER,
+      "    unused = 1 << N - 1\n    return bytes([c for (v, c) in enumerate(chars) if not v & unused])\n", "C15.13",
+      note="seeded change C15-E, list-comprehension spelling"),
+    M("b32-mask-precedence-slip-genexp", B32, B32_HELPER,
+      "    unused = 1 << N - 1\n    return bytes(c for (v, c) in enumerate(chars) if not v & unused)\n", "C15.13",
+      note="seeded change C15-E as delivered"),
+    M("b32-step-times-not-power", B32, "        i = i + 2**N\n", "        i = i + 2*N\n", "C15.13"),
+    M("b32-1bits-range-typo", B32, "BASE32CHAR_1bits = b'['+get_trailing_chars_without_lsbs(4)+b']'",
+      "BASE32CHAR_1bits = b'[a-q]'", "C15.13"),
+    M("b32-mask-one-bit-short", B32, B32_HELPER,
+      "    unused = (1 << (N - 1)) - 1\n    return bytes([c for (v, c) in enumerate(chars) if not v & unused])\n",
+      ["C15.4", "C15.13"], note="canonical classes, but for N-1: decided by the position check C15.4"),
+    M("benign-b32-mask-correct", B32, B32_HELPER,
+      "    unused = (1 << N) - 1\n    return bytes([c for (v, c) in enumerate(chars) if not v & unused])\n", None),
+    M("benign-b32-mask-correct-genexp", B32, B32_HELPER,
+      "    unused = (1 << N) - 1\n    return bytes(c for (v, c) in enumerate(chars) if v & unused == 0)\n", None),
+    M("benign-b32-1bits-literal", B32, "BASE32CHAR_1bits = b'['+get_trailing_chars_without_lsbs(4)+b']'",
+      "BASE32CHAR_1bits = b'[aq]'", None),
+    # ---- C15.14 the table behind a2b's precondition accepts what the patterns accept (the a2b side of C15-E's helper;
+    #      narrowing edits of this table are also caught by test_base32's hypothesis round trip - the rule decides them
+    #      deterministically and at the lengths the caps use)
+    M("s8-unused-bits-not-complemented", B32,
+      "get_trailing_chars_without_lsbs(5-(NUM_QS_TO_NUM_BITS[lenmod8]%5))", "get_trailing_chars_without_lsbs(NUM_QS_TO_NUM_BITS[lenmod8]%5)",
+      "C15.14", note="fails test_base32 too"),
+    M("s8-legit-lengths-typo", B32, "NUM_QS_LEGIT=(1, 0, 1, 0, 1, 1, 0, 1,)", "NUM_QS_LEGIT=(1, 0, 0, 1, 1, 1, 0, 1,)", "C15.14",
+      note="fails test_base32 too"),
+    M("s8-check-array-drops-last", B32, "    for c in bytes(cs):\n        checka[c] = 1\n",
+      "    for c in bytes(cs)[:-1]:\n        checka[c] = 1\n", "C15.14", note="fails test_base32 too"),
+    M("benign-validator-row-local", B32, "    return s8[len(s)%8][s[-1]] and not tr(s, identitytranstable, chars)",
+      "    row = s8[len(s) % 8]\n    last = s[-1]\n    return row[last] and not tr(s, identitytranstable, chars)", None),
+    M("benign-s8-range-loop", B32, "    for lenmod8 in (1, 2, 3, 4, 5, 6, 7,):\n", "    for lenmod8 in range(1, 8):\n", None),
+    M("benign-s8-global-table", B32, "def could_be_base32_encoded(s, s8=s8, tr=bytes.translate,",
+      "def could_be_base32_encoded(s, tr=bytes.translate,", None),
+    M("vanish-validator-table", B32, "    return s8[len(s)%8][s[-1]] and not tr(s, identitytranstable, chars)",
+      "    return s[-1] in chars and not tr(s, identitytranstable, chars)", "ANALYSIS-ERROR"),
     # ---- vanished anchor
     M("vanish-from-string", U, "def from_string(u, deep_immutable=False", "def from_stringX(u, deep_immutable=False", "ANALYSIS-ERROR"),
 ]
